@@ -57,13 +57,14 @@ type SimNode struct {
 	addr    string
 	moniker string
 
-	c     *Cluster
-	node  *node.Node
-	app   *SimApp
-	trans *SimTransport
-	conf  *config.Config
-	store hg.Store
-	spell string // the node's public key as the peers files spell it ("": babble's own upper-case form)
+	c              *Cluster
+	node           *node.Node
+	app            *SimApp
+	trans          *SimTransport
+	conf           *config.Config
+	store          hg.Store
+	expectedAnchor int    // re-fast-forward: the highest anchor its reachable peers offer
+	spell          string // the node's public key as the peers files spell it ("": babble's own upper-case form)
 
 	storeKind string
 	dbPath    string
